@@ -290,3 +290,107 @@ Qed.
 Example src_size_check_view_past_end : (* the input that defeated the macro before its repair *)
   effs_eval [("begin", 1012); ("end", 64); ("offset", 0); ("size", 4)] src_size_check_macro = Some [0].
 Proof. vm_compute. reflexivity. Qed.
+
+(* ---- C12 / C10: random_access_iterator::operator++ (with its SBEPP_SIZE_CHECK) and operator-- ---- *)
+Definition src_it_inc (S B : ity) : list effect :=
+  match S, B with
+  | U8, U8 => src_it_inc_U8_U8
+  | U8, U16 => src_it_inc_U8_U16
+  | U8, U32 => src_it_inc_U8_U32
+  | U8, _ => src_it_inc_U8_U64
+  | U16, U8 => src_it_inc_U16_U8
+  | U16, U16 => src_it_inc_U16_U16
+  | U16, U32 => src_it_inc_U16_U32
+  | U16, _ => src_it_inc_U16_U64
+  | U32, U8 => src_it_inc_U32_U8
+  | U32, U16 => src_it_inc_U32_U16
+  | U32, U32 => src_it_inc_U32_U32
+  | U32, _ => src_it_inc_U32_U64
+  | _, U8 => src_it_inc_U64_U8
+  | _, U16 => src_it_inc_U64_U16
+  | _, U32 => src_it_inc_U64_U32
+  | _, _ => src_it_inc_U64_U64
+  end.
+Definition src_it_dec (S B : ity) : list effect :=
+  match S, B with
+  | U8, U8 => src_it_dec_U8_U8
+  | U8, U16 => src_it_dec_U8_U16
+  | U8, U32 => src_it_dec_U8_U32
+  | U8, _ => src_it_dec_U8_U64
+  | U16, U8 => src_it_dec_U16_U8
+  | U16, U16 => src_it_dec_U16_U16
+  | U16, U32 => src_it_dec_U16_U32
+  | U16, _ => src_it_dec_U16_U64
+  | U32, U8 => src_it_dec_U32_U8
+  | U32, U16 => src_it_dec_U32_U16
+  | U32, U32 => src_it_dec_U32_U32
+  | U32, _ => src_it_dec_U32_U64
+  | _, U8 => src_it_dec_U64_U8
+  | _, U16 => src_it_dec_U64_U16
+  | _, U32 => src_it_dec_U64_U32
+  | _, _ => src_it_dec_U64_U64
+  end.
+Ltac unfold_incdec := unfold src_it_inc, src_it_dec, src_it_inc_U8_U8, src_it_inc_U8_U16, src_it_inc_U8_U32, src_it_inc_U8_U64, src_it_inc_U16_U8, src_it_inc_U16_U16, src_it_inc_U16_U32, src_it_inc_U16_U64, src_it_inc_U32_U8, src_it_inc_U32_U16, src_it_inc_U32_U32, src_it_inc_U32_U64, src_it_inc_U64_U8, src_it_inc_U64_U16, src_it_inc_U64_U32, src_it_inc_U64_U64, src_it_dec_U8_U8, src_it_dec_U8_U16, src_it_dec_U8_U32, src_it_dec_U8_U64, src_it_dec_U16_U8, src_it_dec_U16_U16, src_it_dec_U16_U32, src_it_dec_U16_U64, src_it_dec_U32_U8, src_it_dec_U32_U16, src_it_dec_U32_U32, src_it_dec_U32_U64, src_it_dec_U64_U8, src_it_dec_U64_U16, src_it_dec_U64_U32, src_it_dec_U64_U64.
+
+Lemma src_it_dec_is_model S B it :
+  is_uns S = true -> is_uns B = true -> in_range B (i_bl it) = true -> in_range S (i_idx it) = true ->
+  effs_eval [("block_length", i_bl it); ("index", i_idx it)] (src_it_dec S B)
+  = match it_dec S B it with GOk it' => Some [i_bl it; i_idx it'] | _ => None end.
+Proof.
+  intros HS HB Hbl Hidx. destruct it as [p bl idx e]. cbn [i_bl i_idx] in *.
+  destruct S; try discriminate HS; destruct B; try discriminate HB; unfold_incdec;
+    run_src; unfold it_dec, idx_step, ebin, csub, cbin, arith, INT, of_opt, gbind;
+    cbn [uac promote ity_eqb CInt.bits is_signed obind i_bl i_idx i_ptr i_end]; wraps;
+    ifs; cbn [obind i_idx]; wraps; try reflexivity.
+Qed.
+
+Lemma src_it_inc_is_model S B it :
+  is_uns S = true -> is_uns B = true ->
+  0 < i_ptr it < 2 ^ 63 -> 0 <= i_end it < 2 ^ 63 ->
+  in_range B (i_bl it) = true -> in_range S (i_idx it) = true ->
+  effs_eval [("ptr", i_ptr it); ("end", i_end it); ("block_length", i_bl it); ("index", i_idx it)] (src_it_inc S B)
+  = match it_inc true S B it with
+    | GOk it' => Some [1; i_bl it; i_idx it']
+    | GAssert => Some [0]
+    | GUB => None
+    end.
+Proof.
+  intros HS HB Hp He Hbl Hidx. destruct it as [p bl idx e]. cbn [i_bl i_idx i_ptr i_end] in *.
+  unfold it_inc, GI.size_check. cbn [negb orb i_bl i_idx i_ptr i_end].
+  destruct S; try discriminate HS; destruct B; try discriminate HB; unfold_incdec;
+    run_src; unfold ecmp; (destruct (Z.eqb_spec p 0) as [->|_]; [lia|]); cbn [negb zb Z.eqb obind];
+    (destruct (Z.leb_spec p e); cbn [zb Z.eqb obind andb]; [|reflexivity]);
+    unfold ebin, csub, cadd, cbin, arith, SIZE_T; cbn [uac promote ity_eqb is_signed obind]; wraps;
+    (assert (Hr : in_range I64 (e - p) = true) by rng); rewrite Hr; cbn [obind]; wraps;
+    (destruct (Z.leb_spec bl (e - p)); cbn [zb Z.eqb obind]; [|reflexivity]);
+    wraps; cbn [obind];
+    (destruct (Z.leb_spec 0 (e - p - bl)); [|lia]); cbn [zb Z.eqb obind];
+    unfold idx_step, cadd, cbin, arith, INT, of_opt, gbind;
+    cbn [uac promote ity_eqb CInt.bits is_signed obind]; wraps;
+    ifs; cbn [obind i_idx]; wraps; try reflexivity.
+Qed.
+
+(* operator++ on the source: the handler is called exactly when the entry block
+   at ptr does not lie inside [ptr, end); otherwise the pointer moves by exactly
+   the wire blockLength and the index by one *)
+Theorem src_it_inc_exact S B it :
+  is_uns S = true -> is_uns B = true ->
+  0 < i_ptr it < 2 ^ 63 -> 0 <= i_end it < 2 ^ 63 ->
+  in_range B (i_bl it) = true -> in_range S (i_idx it) = true -> in_range S (i_idx it + 1) = true ->
+  effs_eval [("ptr", i_ptr it); ("end", i_end it); ("block_length", i_bl it); ("index", i_idx it)] (src_it_inc S B)
+  = if (i_ptr it + i_bl it <=? i_end it)%Z then Some [1; i_bl it; i_idx it + 1] else Some [0].
+Proof.
+  intros HS HB Hp He Hbl Hidx Hnext.
+  rewrite src_it_inc_is_model by assumption.
+  unfold it_inc, GI.size_check. cbn [negb orb].
+  rewrite (idx_inc_ok S (i_idx it) HS Hidx Hnext). cbn [gbind i_idx].
+  assert (Hb : 0 <= i_bl it < 2 ^ 64).
+  { apply in_range_iff in Hbl. destruct B; try discriminate HB; cbn in Hbl; lia. }
+  unfold SIZE_T.
+  destruct (Z.leb_spec (i_ptr it) (i_end it)) as [Hle|Hgt]; cbn [andb].
+  - rewrite (wrap_id U64 (i_bl it)) by (apply in_range_iff; cbn; lia).
+    rewrite (wrap_id U64 (i_end it - i_ptr it)) by (apply in_range_iff; cbn; lia).
+    destruct (Z.leb_spec (i_bl it) (i_end it - i_ptr it)); destruct (Z.leb_spec (i_ptr it + i_bl it) (i_end it));
+      try reflexivity; lia.
+  - destruct (Z.leb_spec (i_ptr it + i_bl it) (i_end it)); [lia|reflexivity].
+Qed.
